@@ -1244,7 +1244,9 @@ class Interp:
     def e_GeneratorExp(self, node, env):
         # python evaluates the outermost iterable when the generator is created
         first = self.eval(node.generators[0].iter, env)
-        from .heapmodel import SAbstractSet, heap_of
+        from .heapmodel import SAbstractSet, SMemberTable, SMemberTableGen, heap_of
+        if isinstance(first, SMemberTable):
+            return SMemberTableGen(first, node, Env(dict(env.vars), env.parent, env.module))
         if hasattr(first, 'as_abstract_set'):
             first = first.as_abstract_set(self)
         if isinstance(first, SAbstractSet):
